@@ -525,6 +525,20 @@ class Interp:
       if e.id in self._locals():
         raise Raised(['UnboundLocalError', 'NameError'], e)
       r = self.world.name(self, e.id)
+      if r is NotImplemented and \
+              e.id in getattr(self.func.module, 'const_exprs', {}):
+        # a module-level constant: evaluate its defining expression
+        busy = getattr(self, '_busy', set())
+        if e.id in busy:
+          raise Undecided('cyclic module constant %s' % e.id)
+        self._busy = busy | {e.id}
+        saved = self.env
+        self.env = {}
+        try:
+          return self.ev(self.func.module.const_exprs[e.id])
+        finally:
+          self.env = saved
+          self._busy = busy
       if r is NotImplemented:
         import builtins
         if isinstance(getattr(builtins, e.id, None), type):
@@ -841,6 +855,9 @@ class Interp:
       if isinstance(args[0], Arr) and len(args[0]) == 1:
         return args[0].xs[0]
       raise Undecided('int of %r' % (args[0],))
+    if name == 'divmod' and len(args) == 2 and _is_int(args[0]) and \
+            _is_int(args[1]) and args[1] != 0:
+      return divmod(args[0], args[1])
     if name == 'abs' and len(args) == 1 and _is_num(args[0]):
       return abs(args[0])
     if name == 'abs' and len(args) == 1 and isinstance(args[0], Arr):
